@@ -705,18 +705,20 @@ mut('c16-no-shutdown', 'C16', ['C16.2'], S,
 mut('c16-no-cancel', 'C16', ['C16.2'], S,
     "            try:\n                self._runloop_task.cancel()\n            except Exception:\n                pass\n", "            pass\n",
     'hanging run loop not cancelled')
-mut('c16-revert-f7', 'C16', ['C16.3'], S,
-    "        except (RuntimeError, QueueShutDown):\n            # Queue was shut down or the event loop is closing",
-    "        except (asyncio.CancelledError, RuntimeError, QueueShutDown):\n            # Queue was shut down or the event loop is closing",
-    'CancelledError swallowed while polling (F7 reverted)')
+mut2('c16-revert-f7', 'C16', ['C16.3'], [
+    (S, "        except (RuntimeError, QueueShutDown):\n            # Queue was shut down or the event loop is closing",
+        "        except (asyncio.CancelledError, RuntimeError, QueueShutDown):\n            # Queue was shut down or the event loop is closing"),
+    (S, "                current_task = asyncio.current_task()\n                if current_task is not None and current_task.cancelling():\n                    break\n", ""),
+], 'CancelledError swallowed while polling and no cancelling() re-check in the run loop (F7 and F16 reverted)')
 mut('c16-cancel-arm-inside-while', 'C16', ['C16.3'], S,
     "                except QueueShutDown:\n                    # Queue was shut down, exit cleanly\n                    break\n",
     "                except QueueShutDown:\n                    # Queue was shut down, exit cleanly\n                    break\n                except asyncio.CancelledError:\n                    continue\n",
     'run loop swallows cancellation inside its while')
-mut('c16-bare-except-in-step', 'C16', ['C16.3'], S,
-    "            event = await self._get_next_event(wait_for_timeout=wait_for_timeout)\n            from_queue = True\n",
-    "            try:\n                event = await self._get_next_event(wait_for_timeout=wait_for_timeout)\n            except BaseException:\n                event = None\n            from_queue = True\n",
-    'step swallows every BaseException from polling')
+mut2('c16-bare-except-in-step', 'C16', ['C16.3'], [
+    (S, "            event = await self._get_next_event(wait_for_timeout=wait_for_timeout)\n            from_queue = True\n",
+        "            try:\n                event = await self._get_next_event(wait_for_timeout=wait_for_timeout)\n            except BaseException:\n                event = None\n            from_queue = True\n"),
+    (S, "                current_task = asyncio.current_task()\n                if current_task is not None and current_task.cancelling():\n                    break\n", ""),
+], 'step swallows every BaseException from polling and the run loop does not re-check cancelling()')
 mut('c16-revert-f15', 'C16', ['C16.4'], M,
     "                            if not bus or not bus.event_queue or not bus._is_running:  # pyright: ignore[reportPrivateUsage]",
     "                            if not bus or not bus.event_queue:",
@@ -1054,3 +1056,8 @@ mut('c20-discard-idle-semaphore', 'C20', ['C20.6'], H,
     "                        elif semaphore:\n                            semaphore.release()\n",
     "                        elif semaphore:\n                            semaphore.release()\n                            if not semaphore.locked():\n                                GLOBAL_RETRY_SEMAPHORES.pop(sem_key, None)\n",
     'a semaphore with a free slot is dropped from the registry while others still hold it')
+
+neutral('n-f7-reverted-but-guarded', S,
+        "        except (RuntimeError, QueueShutDown):\n            # Queue was shut down or the event loop is closing",
+        "        except (asyncio.CancelledError, RuntimeError, QueueShutDown):\n            # Queue was shut down or the event loop is closing",
+        'polling absorbs CancelledError again, but the run loop re-checks cancelling() after the step: the cancellation is still honoured (C16 holds)')
